@@ -815,7 +815,7 @@ Definition get_insert_idx (self : oid) (mn : mnode) : H nat :=
                       | Some cm => do p <- mn_pos cm; go (S i) r (if (p <=? map_idx)%Z then Some i else acc)
                       end
                   end) 0 (o_children x) None);
-  h_ret (match idx with Some i => S i | None => length (o_children x) end).
+  h_ret (match idx with Some i => S i | None => 0 end).
 
 Fixpoint insert_at {A} (xs : list A) (i : nat) (v : A) : list A :=
   match i, xs with
